@@ -90,6 +90,18 @@ def cases(ctx):
                 count += 1
                 yield {"version": version, "steps": histories.dictionary_type_sweep(version, candidates[start:start + 20],
                                                                                     list(range(0, 57)))}
+    # the registry containers are public attributes: after the application re-bound gateway.nodes / node.children to plain
+    # dicts (same content), messages for unknown nodes and children still fail by naming them
+    for version in [None, *VERSIONS]:
+        if ctx.mine():
+            count += 1
+            steps = [["restore", 1, {"type": 17, "version": "2.0", "children": {"0": [3, "c0", {"2": "1"}]}}],
+                     ["rebind"], ["rebind-children", 1]]
+            for line in ("1;9;1;0;2;5", "1;9;2;0;2;", "7;0;1;0;2;5", "7;0;0;0;6;c", "7;255;3;0;0;50", "7;255;3;0;11;s",
+                         "7;255;4;0;0;fw", "7;255;3;0;22;1", "7;255;3;0;32;1", "7;255;3;0;21;0", "1;0;1;0;2;6", "1;0;2;0;2;",
+                         "1;3;0;0;6;new child", "1;3;1;0;0;20", "8;255;0;0;17;2.0", "8;1;2;0;0;"):
+                steps.append(["rx", line + "\n"])
+            yield {"version": version, "steps": steps}
     # "mode" messages (every internal type x payloads 0 / 1 / text, from the gateway and from a node) must not change how
     # later reports are recorded: afterwards a NEW static-id node presents itself, presents a child, reports values,
     # battery, sketch - and a known node reports - and the registry must hold all of it
